@@ -234,6 +234,17 @@ def shared_objects_aliased(check, prog):
                  and ast.unparse(t.value.func).endswith('MappingNode')]
         if not built:
             continue                # delegates to the dumper's own methods
+        # (other names bound to the same node)
+        grew = True
+        while grew:
+            grew = False
+            for t in ast.walk(fd):
+                if isinstance(t, ast.Assign) and len(t.targets) == 1 and \
+                        isinstance(t.targets[0], ast.Name) and \
+                        isinstance(t.value, ast.Name) and t.value.id in built and \
+                        t.targets[0].id not in built:
+                    built.append(t.targets[0].id)
+                    grew = True
         n += 1
         recorded = False
         for t in ast.walk(fd):
@@ -243,7 +254,18 @@ def shared_objects_aliased(check, prog):
                 tgt = t.targets[0]
                 if ast.unparse(tgt.value) == dumper + '.represented_objects' and \
                         ast.unparse(tgt.slice) == dumper + '.alias_key':
-                    recorded = True
+                    # ... on every path on which there is a key: unguarded, or in
+                    # the body of `if dumper.alias_key is not None` / `if
+                    # dumper.alias_key`
+                    guards = [g for g in ast.walk(fd) if isinstance(g, ast.If) and any(
+                        x is t for b in (g.body, g.orelse) for st_ in b
+                        for x in ast.walk(st_))]
+                    key = dumper + '.alias_key'
+                    recorded = all(
+                        any(x is t for st_ in g.body for x in ast.walk(st_)) and
+                        ast.unparse(g.test) in (key + ' is not None', key,
+                                                'None is not ' + key)
+                        for g in guards)
         check.require(recorded, 'R8-shared-objects-aliased', c.name + '.to_yaml',
                       'the mapping node built by hand is recorded under the '
                       'dumper\'s alias key', prog.loc(cq, fd),
@@ -414,7 +436,11 @@ def r3_saver_filter(check, prog):
     it = Interp(prog, max_depth=3, opaque=[NAMED] if has_named else [])
     res = it.analyze(q)
     ys = [e for e in it.effects if e['kind'] == 'yield' and e['func'] == q]
-    check.floor('yield sites in HoloPyObject._iteritems', len(ys), 1)
+    check.need('yield sites in HoloPyObject._iteritems', len(ys), 1,
+               'R3-saver-emits', 'HoloPyObject._iteritems',
+               'the saver emits (name, value) pairs', prog.loc(q, prog.func(q)),
+               missing='no yield is left in the saver: every object is written '
+               'without its arguments and reloads as the default')
     if has_named:
         nfd = prog.func(NAMED)
         arg = sym(nfd.args.args[0].arg)
@@ -822,6 +848,26 @@ def r5_model(check, prog):
             k = e['value'][1][0]
             if k[0] == 'const':
                 written.add(k[1])
+    # a key that only some models have is written for exactly those whose
+    # constructor takes it (and whose value a loader can find again)
+    for e in wit.effects:
+        if e['kind'] == 'yield' and e['value'][0] == 'tuple' and \
+                e['value'][1][0][0] == 'const':
+            k = e['value'][1][0][1]
+            def about_key(t_):
+                return (t_[0] == 'cmp' and t_[1] == 'in' and t_[2] == ('const', k)) or \
+                    (t_[0] == 'call' and isinstance(t_[1], str) and
+                     t_[1].endswith('found_by_name')) or \
+                    (t_[0] == 'call' and t_[1] == 'hasattr' and len(t_[2]) == 2 and
+                     t_[2][1] == ('const', k))
+            # (a conjunction of such tests counts like each of them)
+            wrong = [show(t_)[:80] for t_, pol in e['cond'] if not pol and (
+                about_key(t_) or (t_[0] in ('and', 'bool') and any(
+                    about_key(x) for x in subterms(t_))))]
+            check.require(not wrong, 'R5-model-keys', 'Model._iteritems writes %s when'
+                          % k, 'written for the models that have it', prog.loc(
+                              wq, prog.func(wq)),
+                          fail_detail='written only when not %s' % '; '.join(wrong))
     # each key is written from the attribute of the same name
     for e in wit.effects:
         if e['kind'] == 'yield' and e['value'][0] == 'tuple' and \
@@ -868,9 +914,15 @@ def r5_model(check, prog):
             want_upds = sorted(show(intern(
                 ('call', rm, (('idx', F('_maps'), ('const', k)), F('_parameters')),
                  ()))) for k in ('optics', 'model'))
-            for t in ite_leaves(dict(ctor[0]['kwargs'])['**']):
+            def leaves_under(t, cond=()):
+                if t[0] == 'ite':
+                    return leaves_under(t[2], cond + ((t[1], True),)) + \
+                        leaves_under(t[3], cond + ((t[1], False),))
+                return [(t, cond)]
+            for t, under in leaves_under(dict(ctor[0]['kwargs'])['**']):
                 upds = []
                 items = {}
+                t0 = t
                 while (t[0] == 'mut' and t[2] == 'update') or \
                         (t[0] == 'upd' and t[2] == 'item'):
                     if t[0] == 'mut':
@@ -888,6 +940,17 @@ def r5_model(check, prog):
                         x == F(k) or (x[0] == 'call' and x[1] == ('attr', fterm, 'get')
                                       and x[2] and x[2][0] == ('const', k)))
                     for k, x in lit.items() if k not in ('scatterer', 'theory'))
+                # a field read with a subscript on a branch of a test is read where
+                # the file has it; where the file has it, it is handed over
+                present = {c[2][1]: pol for c, pol in under
+                           if c[0] == 'cmp' and c[1] == 'in' and c[3] == fterm
+                           and c[2][0] == 'const'}
+                for k, x in items.items():
+                    if k in present and not present[k] and x == F(k):
+                        extra_ok = False
+                for k, pol in present.items():
+                    if pol and k not in lit:
+                        extra_ok = False
                 good = t[0] == 'dict' and lit.get('scatterer') == scat and \
                     lit.get('theory') == F('theory') and extra_ok and \
                     sorted(show(u) for u in upds) == want_upds
